@@ -180,11 +180,11 @@ func genC14(t *rapid.T) c14Case {
 		}
 		switch rapid.IntRange(0, 3).Draw(t, "lenclass") {
 		case 0:
-			c.NumByte = rapid.IntRange(16, 4096).Draw(t, "numbyte")
+			c.NumByte = uniformInt(t, 16, 4096, "numbyte")
 		case 1: // large captures: pattern counts beyond 2^16 / 2^20
 			c.NumByte = rapid.SampledFrom([]int{65535, 65536, 65537, 70000, 131072, 1 << 20, 1<<20 + 1, 1 << 22}).Draw(t, "numbyte")
 		case 2:
-			c.NumByte = rapid.IntRange(4097, 1<<21).Draw(t, "numbyte")
+			c.NumByte = uniformInt(t, 4097, 1<<21, "numbyte")
 		}
 		return c
 	}
